@@ -282,7 +282,12 @@ def r6_alloc_try_with(ctx, P):
         allocs = b.calls_to(lambda f: f.get("name") in ("generic_alloc_uninit", "prepare_sized_allocation", "alloc_sized"))
         rts = b.calls_to(lambda f: f.get("name") == "reset_to")
         users = [(s, t) for s, t in b.calls() if t["f"].get("name") == "write_with"]
-        if not ctx.need(bool(cps) and bool(allocs) and bool(rts) and bool(users), R, f"{nm}: checkpoint/allocation/reset_to/write_with calls"):
+        if not ctx.need(bool(allocs) and bool(users), R, f"{nm}: allocation and write_with calls"):
+            continue
+        if not (cps and rts):
+            ctx.inst(R, b.path, False, f"{nm} takes no checkpoint / never calls reset_to ({len(cps)} checkpoint call(s), {len(rts)} reset_to "
+                     "call(s)): when the closure returns Err the arena is not restored to its state before the call (the closure may "
+                     "have allocated, or switched to another chunk)", where=b.where(), site="Err rewinds")
             continue
         ok = all(any(b.dominates(c, a) for c, _ in cps) for a, _ in allocs)
         ctx.inst(R, b.path, ok, "the checkpoint is taken before the allocation" if ok else
